@@ -65,6 +65,7 @@ type Report struct {
 	Funcs      []string
 	Paths      int
 	Trans      int
+	SolverRetries int // paths re-executed once because a query came back unknown
 }
 
 func LoadKnown() map[string]interp.KnownFinding {
@@ -182,9 +183,19 @@ func Explore(l *Loaded, names []string, opt Options) (*Report, error) {
 				mu.Unlock()
 
 				res := ex.RunPath(l.Harness[j.h], j.item)
+				retried := false
+				if res.Status == interp.PathInconclusive && strings.HasPrefix(res.Reason, "solver") {
+					// every back end and the portfolio gave up on one query (on a loaded machine even trivial queries
+					// can run into the time caps): the path is re-executed once from scratch; its first attempt is discarded
+					retried = true
+					res = ex.RunPath(l.Harness[j.h], j.item)
+				}
 
 				mu.Lock()
 				active--
+				if retried {
+					rep.SolverRetries++
+				}
 				st := rep.Stats[j.h]
 				st.Paths++
 				rep.Paths++
